@@ -166,8 +166,10 @@ class _Parser:
     # braces are meta-characters in the XPath grammar and in XSD 1.1; in XSD 1.0 the Char
     # production admits them while the prose calls them meta-characters
     def _brace(self, reason, pos):
-        if self.xpath or self.v11:
+        if self.v11 or (self.xpath and reason != 'brace-char'):
             raise Invalid(reason, pos)
+        # a lone '{' or '}' is a normal character under the XSD 1.0 Char production, on which the XPath
+        # regex syntax may be based: not decided
         raise Undecided('xsd10-' + reason)
 
     def peek(self, k=0):
